@@ -796,6 +796,18 @@ func runCmp(c Case) *h.Result {
 				}
 			}
 			res.Err = fmt.Sprintf("%s: expected an argument of value %s, got %s", c, ext.RatString(), sx.Typed(out.Val))
+			break
+		}
+		// among integers and ratios there is no contagion: the result is one of the arguments, in canonical form
+		// (an integer is not a ratio with denominator 1, a small integer not a bignum)
+		allRational := true
+		for _, n := range ns {
+			allRational = allRational && (n.Kind == "int" || n.Kind == "ratio")
+		}
+		if allRational {
+			if w, g := refnum.Canon(ext), sx.Typed(out.Val); w != g {
+				res.Err = fmt.Sprintf("%s: expected %s, got %s (not in canonical form)", c, w, g)
+			}
 		}
 	default:
 		res.Err = "unknown op " + c.Op
